@@ -282,7 +282,7 @@ def ref_apply(env, rec, state, op):
         if n not in st:
             return SKIP
         b = copy.deepcopy(st[n])
-        if args:
+        if args and args[0] is not None:  # (_transform=None is the advertised default: no whole-value transform)
             b = copy.deepcopy(args[0](b))  # (the transform may hand back an object that exists elsewhere: the model edits its own copy)
         for k, f in kw.items():
             r = f(getattr(b, k))
